@@ -96,6 +96,12 @@ CLAIMED["C08"] = dict(text="Metamorphic bounded symbolic model checking of the r
                   "list, instance independence, #error and malformed-nesting behaviour are compared.",
              design="DESIGN.md 4/C08", technique="symbolic execution of the real Python code with z3 (symx): selector-driven line sequences, real files in a per-path temp dir, independent flattening oracle",
              note="k <= 3 (quick) / 4 (thorough) free lines over a 13-17 entry alphabet; #define inside conditionals, nested conditionals, macros with values and data lines continuing a section across an include are outside. " + NOTE_COMMON)
+CLAIMED["C18"] = dict(text="Bounded symbolic model checking of the real build-file parser (molecule index and residue-id ranges symbolic, rendered into generated build "
+                  "files; several directive lines per kind; repeated/interleaved molecule names; a molecule whose residues are not stored in id order), of "
+                  "parse_residue_spec/_find_nodes/find_starting_node_from_spec over every subset of omitted fields (incl. residue id 0), of split_residue over every "
+                  "assignment of atoms to new residues, and of AnnotateLigands attach/hand-back.",
+             design="DESIGN.md 4/C18", technique="symbolic execution of the real Python code with z3 (symx): symbolic range bounds concretised by solver-driven forking, selectors for specifications",
+             note="ranges within 0..4 (quick) / 0..6 (thorough); names from a fixed set (no '#'/'-' inside names, no arbitrary unicode: the planned CrossHair string run is not included); placement of ligands is C05/C17. " + NOTE_COMMON)
 NOT_YET = {}
 def main():
     props = [json.loads(l) for l in open(os.path.join(ROOT, "properties.jsonl"))]
